@@ -12,13 +12,13 @@ EXPLANATIONS = {
     "verified_at = current revision, and the key is added to the creator's outputs; deep verification treats Assigned memos as "
     "Changed (shared C01.4e) unless their creator re-validates them (validate_specified_value asserts the creator and marks "
     "verified); stale specified memos are left unverified; Assigned memos are never evicted (shared C04.4); the claim uses "
-    "Reentrancy::Deny. Not decided: path-independence of values for concrete request orders.",
+    "Reentrancy::Deny. The ownership test of specify consults only the TOP frame of the query stack (IdentityMap::is_active: id and ingredient equal and the entry active); validate_specified_value is skipped only for an empty slot; when execute replaces an Assigned memo by a differing computed value it stamps changed_at = current revision (repaired finding F4). Not decided: path-independence of values for concrete request orders.",
     "C11": "Decided: accumulated_by records an untracked read and fetches the function before walking; the walk is LIFO over "
     "origin().inputs().rev() (depth-first in execution order), visits each key once, and prunes a subtree only if its reported "
     "InputAccumulatedValues is empty; the per-memo flag is computed as Any when an input has accumulated values else the input's own "
     "flag, is OR-ed during deep verification and stored, and reset for re-validated specified values; edges of never-change queries "
     "are kept when inputs accumulate (shared C01.3/C04.4); completion moves this execution's accumulated map into the new revisions; "
-    "fixpoint cycles assert no accumulated inputs. Not decided: the value sequence for concrete programs.",
+    "fixpoint cycles assert no accumulated inputs. complete_cycle_query completes only without accumulated inputs; the unwind clean-up of a pooled frame clears the accumulated values; the cold verdict is built after verify_memo refreshed the accumulated flag. Not decided: the value sequence for concrete programs.",
 }
 
 SP = r"^function::specify::<impl function::IngredientImpl<C>>::specify_and_record$"
